@@ -220,16 +220,21 @@ fn trim_regex<'a>(line: &'a [u8], trim_kind: &Trim, re: &Regex) -> &'a [u8] {
     let mut idx_start = 0;
     let mut idx_end = line.len();
 
+    // the first match, when looking at it did not trim the left side
+    let mut first_unused = None;
+
     if trim_kind == &Trim::Both || trim_kind == &Trim::Left {
         if let Some(m) = iter.next() {
             if m.start() == 0 {
                 idx_start = m.end();
+            } else {
+                first_unused = Some(m);
             }
         }
     }
 
     if trim_kind == &Trim::Both || trim_kind == &Trim::Right {
-        if let Some(m) = iter.last() {
+        if let Some(m) = iter.last().or(first_unused) {
             if m.end() == line.len() {
                 idx_end = m.start();
             }
